@@ -41,9 +41,11 @@ def main(tier, replay):
     shp = shapes_for(tier, c.seed)
     P = {}
     canon = {}
+    nodes = {}
     for name, s, cn in shp:
         P[name] = progs.shape_program(name, s)
         canon[name] = cn
+        nodes[name] = cn.count('L') + cn.count('{') - 1
     # the eight primitive types in every repetition: Flat24 and the per-type programs (all templates)
     core = {'flat24': progs.flat24()}
     core.update(progs.flat_types())
@@ -72,8 +74,10 @@ def main(tier, replay):
             continue
         stub = c02.nostats(n)
         wide = n == 'flat24'
+        # shapes with <= 3 nodes: two structurally free records; larger shapes: one free record followed by a fixed-structure one
+        small = n in nodes and nodes[n] <= 3
         jobs.append({'name': 'shred|%s|%s' % (n, canon[n]), 'pkg': 'scratch/' + n, 'func': 'HarnessShred',
-                     'args': [0, 3, 0, 2, 1, 1, 3, 0] if wide else [2, 0, 0, 2, 1, 1, 3, 0], 'opt': {'stub': stub, 'max_paths': 60000}})
+                     'args': [0, 3, 0, 2, 1, 1, 3, 0] if wide else ([2, 0, 0, 2, 1, 1, 3, 0] if small else [1, 1, 0, 2, 1, 1, 3, 0]), 'opt': {'stub': stub, 'max_paths': 120000}})
         jobs.append({'name': 'file|%s|%s' % (n, canon[n]), 'pkg': 'scratch/' + n, 'func': 'HarnessFile',
                      'args': [0, 2, -1, 1, 1, len(n) % 3, 1, 0, 0] if wide else [1, 1, -1, 1, 1, len(n) % 3, 1, 0, 0], 'opt': {'stub': stub, 'mode_b': True}})
     jobs.append({'name': 'sens-striping', 'pkg': 'scratch/flat_int32', 'func': 'HarnessShred', 'args': [1, 0, 0, 1, 1, 0, 3, 1], 'expect': 'striping', 'opt': {}})
